@@ -17,6 +17,73 @@ type parserInfo struct {
 	parseOp  *ssa.Function
 	ops0     map[*ssa.Function]map[string]bool
 	consumes map[*ssa.Call]bool
+	// bind: while a parser combinator (a function that is handed its operator and its sub-parsers) is
+	// judged for one of its call sites, its parameters stand for that site's arguments
+	bind map[*ssa.Parameter]ssa.Value
+}
+
+// deref replaces a bound parameter by the call-site argument.
+func (pi *parserInfo) deref(v ssa.Value) ssa.Value {
+	for i := 0; i < 4; i++ {
+		prm, ok := v.(*ssa.Parameter)
+		if !ok {
+			return v
+		}
+		a, ok := pi.bind[prm]
+		if !ok {
+			return v
+		}
+		v = a
+	}
+	return v
+}
+
+// calleeOf: the function a call runs: its static callee, or — for a call through a bound function
+// parameter — the function (method value unwrapped) passed at the site under judgement.
+func (pi *parserInfo) calleeOf(c *ssa.Call) *ssa.Function {
+	if f := c.Call.StaticCallee(); f != nil {
+		return f
+	}
+	switch fv := pi.deref(c.Call.Value).(type) {
+	case *ssa.Function:
+		return unwrapThunk(pi.p, fv)
+	case *ssa.MakeClosure:
+		if f, ok := fv.Fn.(*ssa.Function); ok {
+			return unwrapThunk(pi.p, f)
+		}
+	}
+	return nil
+}
+
+// isCombinator: g takes at least one function-typed parameter that it calls.
+func isCombinator(g *ssa.Function) bool {
+	for _, prm := range g.Params {
+		if _, ok := prm.Type().Underlying().(*types.Signature); !ok {
+			continue
+		}
+		for _, ref := range *prm.Referrers() {
+			if c, ok := ref.(*ssa.Call); ok && c.Call.Value == ssa.Value(prm) {
+				return true
+			}
+		}
+	}
+	return false
+}
+
+// withSite runs fn with g's parameters bound to the arguments of call site c.
+func (pi *parserInfo) withSite(g *ssa.Function, c *ssa.Call, fn func()) {
+	old := pi.bind
+	pi.bind = map[*ssa.Parameter]ssa.Value{}
+	for k, v := range old {
+		pi.bind[k] = v
+	}
+	for i, prm := range g.Params {
+		if i < len(c.Call.Args) {
+			pi.bind[prm] = c.Call.Args[i]
+		}
+	}
+	fn()
+	pi.bind = old
 }
 
 // nonNilEdgeBlock returns the block entered when call result c is non-nil, if c is tested directly.
@@ -105,7 +172,7 @@ func (pi *parserInfo) opConst(c *ssa.Call) (string, bool) {
 	if c.Call.StaticCallee() == nil || !opMatcherSet(pi.p)[c.Call.StaticCallee()] || len(c.Call.Args) < 2 {
 		return "", false
 	}
-	return constString(c.Call.Args[1])
+	return constString(pi.deref(c.Call.Args[1]))
 }
 
 // consuming: a parseOperator(c) call whose success leads to a value-returning path of its function.
@@ -158,31 +225,45 @@ func (pi *parserInfo) computeOps0(funcs []*ssa.Function) {
 	for changed := true; changed; {
 		changed = false
 		for _, f := range funcs {
-			for _, b := range f.Blocks {
-				for _, in := range b.Instrs {
-					c, ok := in.(*ssa.Call)
-					if !ok || pi.behindParen(c) {
-						continue
-					}
-					callee := c.Call.StaticCallee()
-					if callee == nil || !pi.p.InModule(callee) {
-						continue
-					}
-					if s, ok := pi.opConst(c); ok {
-						if pi.consuming(c) && !pi.ops0[f][s] {
-							pi.ops0[f][s] = true
-							changed = true
+			add := func(s string) {
+				if !pi.ops0[f][s] {
+					pi.ops0[f][s] = true
+					changed = true
+				}
+			}
+			var scan func(g *ssa.Function, depth int)
+			scan = func(g *ssa.Function, depth int) {
+				for _, b := range g.Blocks {
+					for _, in := range b.Instrs {
+						c, ok := in.(*ssa.Call)
+						if !ok || pi.behindParen(c) {
+							continue
 						}
-						continue
-					}
-					for s := range pi.ops0[callee] {
-						if !pi.ops0[f][s] {
-							pi.ops0[f][s] = true
-							changed = true
+						callee := pi.calleeOf(c)
+						if callee == nil || !pi.p.InModule(callee) {
+							continue
+						}
+						if s, ok := pi.opConst(c); ok {
+							if pi.consuming(c) {
+								add(s)
+							}
+							continue
+						}
+						if _, isOp := opMatcherSet(pi.p)[callee]; isOp {
+							continue // an operator probe whose operator is not known here
+						}
+						if c.Call.StaticCallee() != nil && isCombinator(callee) && depth < 2 {
+							// a combinator consumes what its operator and sub-parser arguments consume at this site
+							pi.withSite(callee, c, func() { scan(callee, depth+1) })
+							continue
+						}
+						for s := range pi.ops0[callee] {
+							add(s)
 						}
 					}
 				}
 			}
+			scan(f, 0)
 		}
 	}
 }
@@ -229,11 +310,11 @@ func ruleP1(p *Prog, r *Report, eng *Engine) {
 		pos := p.pos(at)
 		l, okL := vals["left"].(*ssa.Call)
 		rt, okR := vals["right"].(*ssa.Call)
-		if !okL || !okR || l.Call.StaticCallee() == nil || rt.Call.StaticCallee() == nil {
+		if !okL || !okR || pi.calleeOf(l) == nil || pi.calleeOf(rt) == nil {
 			r.Unknown("P1", key, pos, "kind=undecided: operands of the node literal are not direct results of sub-parser calls")
 			return
 		}
-		lf, rf := l.Call.StaticCallee(), rt.Call.StaticCallee()
+		lf, rf := pi.calleeOf(l), pi.calleeOf(rt)
 		var probs []string
 		if !(l.Block() == rt.Block() && blockOrder(l) < blockOrder(rt) || l.Block() != rt.Block() && l.Block().Dominates(rt.Block())) {
 			probs = append(probs, "the left operand is not parsed before the right operand")
@@ -352,6 +433,23 @@ func ruleP1(p *Prog, r *Report, eng *Engine) {
 						}
 					}
 				}
+				if isCombinator(f) {
+					// the literal of a combinator is judged once per call site, with operator and sub-parsers bound
+					n := 0
+					for _, h := range funcs {
+						for _, hb := range h.Blocks {
+							for _, hin := range hb.Instrs {
+								if hc, ok := hin.(*ssa.Call); ok && hc.Call.StaticCallee() == f {
+									n++
+									pi.withSite(f, hc, func() { checkSite(f, hc.Pos(), vals) })
+								}
+							}
+						}
+					}
+					if n > 0 {
+						continue
+					}
+				}
 				checkSite(f, al.Pos(), vals)
 			}
 		}
@@ -439,12 +537,20 @@ func resolveConjunction(pi *parserInfo, v ssa.Value) string {
 	if v == nil {
 		return "?"
 	}
+	v = pi.deref(v)
 	if s, ok := constString(v); ok {
 		return s
 	}
 	if c, ok := v.(*ssa.Call); ok && c.Call.StaticCallee() != nil {
 		name := c.Call.StaticCallee().String()
 		if name == "strings.ToLower" || name == "strings.ToUpper" {
+			// of the operator the combinator was handed (and matched: the "between" test below checks that)
+			if k, ok := constString(pi.deref(c.Call.Args[0])); ok {
+				if name == "strings.ToLower" {
+					return strings.ToLower(k)
+				}
+				return strings.ToUpper(k)
+			}
 			var pc *ssa.Call
 			if ld, ok := c.Call.Args[0].(*ssa.UnOp); ok && ld.Op == token.MUL {
 				pc, _ = ld.X.(*ssa.Call) // *parseOperator(c)
